@@ -3,7 +3,7 @@
    Parser record:
      sc        the token source (scanner record of YScanner, or a token feed, see PNextToken)
      state     current State          states   stack of states to return to (Vec<State>)
-     tok       one-token look-ahead   smark    the Marker carried by FlowSequenceEntryMappingEnd
+     tok       one-token look-ahead   smark    the Markers carried by the FlowSequenceEntryMappingEnd states (a stack: they nest)
      anchors   name -> id (sequence of <<name, id>>, later entries override)
      nextAid   anchor_id_count        tags     handle -> prefix (sequence of <<handle, prefix>>)
      keepTags  keep_tags option
@@ -18,7 +18,7 @@ EmptyScalar(a, b) == Ev("Scalar", a, b, <<"~">>, "plain", 0, <<>>)
 MaxNestingLevel == 1000
 DefaultSecondary == <<"t", "a", "g", ":", "y", "a", "m", "l", ".", "o", "r", "g", ",", "2", "0", "0", "2", ":">>
 
-PInit(keep) == [sc |-> ScanInit, state |-> "StreamStart", states |-> <<>>, tok |-> NoneTok, smark |-> <<0, 0, 0>>,
+PInit(keep) == [sc |-> ScanInit, state |-> "StreamStart", states |-> <<>>, tok |-> NoneTok, smark |-> <<>>,
                 anchors |-> <<>>, nextAid |-> 1, tags |-> <<>>, keepTags |-> keep]
 
 \* token source: the scanner, or (feed mode, used by MC_ParserPDA) the "text" is a sequence of tokens
@@ -252,9 +252,9 @@ FSEMappingValueS(t, p0) ==
   LET p == PeekTok(t, p0) IN IF p.sc.err # "" THEN Bad(p) ELSE
   IF p.tok.k = "Value"
   THEN LET q == PeekTok(t, Skip(p)) IN IF q.sc.err # "" THEN Bad(q) ELSE
-       IF q.tok.k \in {"FlowEntry", "FlowSequenceEnd"} THEN Ret([q EXCEPT !.state = "FlowSequenceEntryMappingEnd", !.smark = q.tok.b], EmptyScalar(q.tok.a, q.tok.b))
-       ELSE ParseNode(t, [PushS(q, "FlowSequenceEntryMappingEnd") EXCEPT !.smark = q.tok.b], FALSE, FALSE)
-  ELSE Ret([p EXCEPT !.state = "FlowSequenceEntryMappingEnd", !.smark = p.tok.b], EmptyScalar(p.tok.a, p.tok.b))
+       IF q.tok.k \in {"FlowEntry", "FlowSequenceEnd"} THEN Ret([q EXCEPT !.state = "FlowSequenceEntryMappingEnd", !.smark = Append(@, q.tok.b)], EmptyScalar(q.tok.a, q.tok.b))
+       ELSE ParseNode(t, [PushS(q, "FlowSequenceEntryMappingEnd") EXCEPT !.smark = Append(@, q.tok.b)], FALSE, FALSE)
+  ELSE Ret([p EXCEPT !.state = "FlowSequenceEntryMappingEnd", !.smark = Append(@, p.tok.b)], EmptyScalar(p.tok.a, p.tok.b))
 
 \* parse(): one event
 Parse(t, p) ==
@@ -281,7 +281,7 @@ Parse(t, p) ==
   ELSE IF st = "IndentlessSequenceEntry" THEN IndentlessS(t, p)
   ELSE IF st = "FlowSequenceEntryMappingKey" THEN FSEMappingKeyS(t, p)
   ELSE IF st = "FlowSequenceEntryMappingValue" THEN FSEMappingValueS(t, p)
-  ELSE IF st = "FlowSequenceEntryMappingEnd" THEN Ret([p EXCEPT !.state = "FlowSequenceEntry"], Ev0("MappingEnd", p.smark, p.smark))
+  ELSE IF st = "FlowSequenceEntryMappingEnd" THEN Ret([p EXCEPT !.state = "FlowSequenceEntry", !.smark = SubSeq(@, 1, Len(@) - 1)], Ev0("MappingEnd", Last(p.smark), Last(p.smark)))
   ELSE Bad(PErr(p, "PANIC: unreachable state", <<0, 0, 0>>))
 
 \* run to completion: [evs, err, errmark]
